@@ -202,11 +202,20 @@ def canon_ir(t):
     return canon_type(t)
 
 
+def canon_str(x):
+    """deterministic text of a canonical form (repr of a frozenset depends on its iteration order)"""
+    if isinstance(x, (frozenset, set)):
+        return "{" + ", ".join(sorted(canon_str(e) for e in x)) + "}"
+    if isinstance(x, tuple):
+        return "(" + ", ".join(canon_str(e) for e in x) + ")"
+    return repr(x)
+
+
 def canon_registry(reg):
     out = []
     for m in reg.models:
-        out.append(frozenset((k, isinstance(v, DOptional), canon_type(v)) for k, v in m.type.items()))
-    return sorted(out, key=repr)
+        out.append(canon_str(frozenset((k, isinstance(v, DOptional), canon_type(v)) for k, v in m.type.items())))
+    return sorted(out)
 
 
 # ------------------------------------------------------------------------------------------------ C08 normal form
